@@ -138,6 +138,12 @@ func c19Client(c *Ctx, r *Report, ci *clientInfo, control bool) map[string]bool 
 		g := guardOf(h)
 		rep("R19.1", g != nil && g.Dominates(ci.write.instr.Block()) && g != ci.write.instr.Block(), "the BeforeWrite guard is evaluated before the transport Write on every path", "", "beforewrite-order", posOfCall(c, h))
 		transparent(h, "BeforeWrite")
+		// ... once per request: the hook call is neither in a loop nor in a function that can reach
+		// itself through calls (a helper that announces and writes, re-entered for the unwritten rest
+		// of a short write, announces a suffix of the request as if it were another request)
+		hb := h.instr.Block()
+		hf := h.instr.Parent()
+		rep("R19.1", !blockReaches(hb, hb) && !callsItself(c, hf), "BeforeWrite is announced once per request (its call site is not in a loop and not in a recursive helper)", fnID(hf), "beforewrite-repeated", posOfCall(c, h))
 	}
 	// ---- R19.2 ----
 	ar := ci.hookCalls(fr, "AfterEachRead")
@@ -193,4 +199,36 @@ func c19Client(c *Ctx, r *Report, ci *clientInfo, control bool) map[string]bool 
 		transparent(h, "BeforeParse")
 	}
 	return fired
+}
+
+// callsItself: fn is on a cycle of the call graph.
+func callsItself(c *Ctx, fn *ssa.Function) bool {
+	cg := c.callGraph()
+	start := cg.Nodes[fn]
+	if start == nil {
+		return false
+	}
+	seen := map[*ssa.Function]bool{}
+	var walk func(f *ssa.Function) bool
+	walk = func(f *ssa.Function) bool {
+		n := cg.Nodes[f]
+		if n == nil {
+			return false
+		}
+		for _, e := range n.Out {
+			cal := e.Callee.Func
+			if cal == fn {
+				return true
+			}
+			if cal == nil || seen[cal] || !c.inModule(cal) {
+				continue
+			}
+			seen[cal] = true
+			if walk(cal) {
+				return true
+			}
+		}
+		return false
+	}
+	return walk(fn)
 }
